@@ -104,10 +104,10 @@ func c13Alive(p *Core) bool { return p.ctx.Err() == nil }
 
 type c13Mut struct {
 	Field string
-	JSON  string
+	Alts  []any
 }
 
-// c13Mutations enumerates one alternative value for every non-deprecated global parameter (reflection over conf.Conf).
+// c13Mutations enumerates alternative values for every non-deprecated global parameter (reflection over conf.Conf).
 func c13Mutations(rng *rand.Rand, base *conf.Conf, certDir string, freePort func() int) []c13Mut {
 	var out []c13Mut
 	rt := reflect.TypeOf(*base)
@@ -119,93 +119,100 @@ func c13Mutations(rng *rand.Rand, base *conf.Conf, certDir string, freePort func
 			continue
 		}
 		cur := rv.Field(i)
-		var val any
+		var alts []any
 		lname := strings.ToLower(j)
 		switch f.Type.String() {
 		case "bool":
-			val = !cur.Bool()
+			alts = []any{!cur.Bool()}
 		case "int":
 			switch {
 			case j == "writeQueueSize":
-				val = cur.Int() * 2
+				alts = []any{cur.Int() * 2, cur.Int() / 2}
 			case j == "udpMaxPayloadSize":
-				val = 1400
+				alts = []any{1400, cur.Int() - 10, cur.Int() - 22}
 			case strings.Contains(lname, "port"):
-				p := int(cur.Int()) + 2
-				val = p
+				alts = []any{int(cur.Int()) + 2}
 			default:
-				val = cur.Int() + 1
+				alts = []any{cur.Int() + 1, cur.Int() + 10}
 			}
 		case "uint":
-			val = cur.Uint() + 4096
+			alts = []any{cur.Uint() + 4096}
 		case "string":
 			switch {
 			case strings.HasSuffix(lname, "address") && !strings.HasPrefix(lname, "auth"):
-				host := "127.0.0.1"
-				val = fmt.Sprintf("%s:%d", host, freePort())
+				alts = []any{fmt.Sprintf("127.0.0.1:%d", freePort())}
 			case strings.HasSuffix(lname, "serverkey"):
-				val = filepath.Join(certDir, "server2.key")
+				alts = []any{filepath.Join(certDir, "server2.key")}
 			case strings.HasSuffix(lname, "servercert"):
-				val = filepath.Join(certDir, "server2.crt")
+				alts = []any{filepath.Join(certDir, "server2.crt")}
 			case j == "logFile":
-				val = filepath.Join(certDir, "other.log")
+				alts = []any{filepath.Join(certDir, "other.log")}
 			case j == "multicastIPRange":
-				val = "224.2.0.0/16"
+				alts = []any{"224.2.0.0/16"}
 			case j == "hlsDirectory":
-				val = certDir
+				alts = []any{certDir}
 			case strings.HasPrefix(j, "runOn"):
-				val = "true"
+				alts = []any{"true"}
 			default:
-				val = cur.String() + "x"
+				alts = []any{cur.String() + "x"}
 			}
 		case "conf.Duration":
-			val = conf.Duration(time.Duration(cur.Int()) + time.Second)
+			alts = []any{conf.Duration(time.Duration(cur.Int()) + time.Second), conf.Duration(time.Duration(cur.Int()) + 10*time.Second)}
 		case "conf.StringSize":
-			val = conf.StringSize(cur.Uint() * 2)
+			alts = []any{conf.StringSize(cur.Uint() * 2)}
 		case "[]string":
-			val = append(append([]string{}, cur.Interface().([]string)...), "http://example.com")
+			alts = []any{append(append([]string{}, cur.Interface().([]string)...), "http://example.com")}
 		case "conf.IPNetworks":
 			b, _ := json.Marshal(cur.Interface())
 			var l []string
 			json.Unmarshal(b, &l) //nolint:errcheck
-			val = append(l, "10.0.0.0/8")
+			alts = []any{append(l, "10.0.0.0/8")}
 		case "conf.LogLevel":
-			val = "debug"
+			alts = []any{"debug"}
 		case "conf.LogDestinations":
-			val = []string{"file", "stdout"}
+			alts = []any{[]string{"file", "stdout"}}
 		case "conf.AuthMethod":
 			continue // other methods need a reachable authority
 		case "conf.Encryption":
-			val = "optional"
+			alts = []any{"optional", "strict"}
 		case "conf.RTSPTransports":
-			val = []string{"tcp", "udp"}
+			alts = []any{[]string{"tcp", "udp"}}
 		case "conf.RTSPAuthMethods":
-			val = []string{"basic", "digest"}
+			alts = []any{[]string{"basic", "digest"}}
 		case "conf.HLSVariant":
-			val = "fmp4"
+			alts = []any{"fmp4", "mpegts"}
 		case "[]conf.AuthInternalUser":
 			b, _ := json.Marshal(cur.Interface())
 			var l []map[string]any
 			json.Unmarshal(b, &l) //nolint:errcheck
-			val = append(l, map[string]any{"user": "extra", "pass": "pw", "ips": []string{}, "permissions": []map[string]any{{"action": "read", "path": ""}}})
+			alts = []any{append(l, map[string]any{"user": "extra", "pass": "pw", "ips": []string{}, "permissions": []map[string]any{{"action": "read", "path": ""}}})}
 		case "[]conf.AuthInternalUserPermission":
-			val = []map[string]any{{"action": "read", "path": "excluded"}}
+			alts = []any{[]map[string]any{{"action": "read", "path": "excluded"}}}
 		case "[]conf.WebRTCICEServer":
-			val = []map[string]any{{"url": "stun:127.0.0.1:3478", "username": "", "password": "", "clientOnly": false}}
+			alts = []any{[]map[string]any{{"url": "stun:127.0.0.1:3478", "username": "", "password": "", "clientOnly": false}}}
 		default:
 			continue
 		}
-		b, err := json.Marshal(map[string]any{j: val})
-		if err != nil {
-			continue
+		// normalise through JSON so that values compare and print uniformly
+		for k, a := range alts {
+			b, err := json.Marshal(a)
+			if err != nil {
+				alts = nil
+				break
+			}
+			var v any
+			json.Unmarshal(b, &v) //nolint:errcheck
+			alts[k] = v
 		}
-		out = append(out, c13Mut{j, string(b)})
+		if len(alts) != 0 {
+			out = append(out, c13Mut{j, alts})
+		}
 	}
 	rng.Shuffle(len(out), func(a, b int) { out[a], out[b] = out[b], out[a] })
 	return out
 }
 
-// c13PathEdits are path-level changes (applied in place, no component may restart).
+// c13PathEdits are path-level changes made through the API (applied in place, no component may restart).
 var c13PathEdits = []struct{ Kind, Name, JSON string }{
 	{"pathdefaults", "", `{"maxReaders":7}`},
 	{"add", "cam2", `{"record":false}`},
@@ -214,14 +221,89 @@ var c13PathEdits = []struct{ Kind, Name, JSON string }{
 	{"replace", "cam1", `{"maxReaders":3}`},
 	{"pathdefaults", "", `{"recordDeleteAfter":"2h"}`},
 	{"add", "~^re/(.+)$", `{"source":"publisher"}`},
-	{"patch", "cam1", `{"recordDeleteAfter":"30m","recordPath":"/tmp/verif-c13/%path/%Y-%m-%d_%H-%M-%S-%f"}`},
+	{"patch", "cam1", `{"recordDeleteAfter":"3h","recordPath":"/tmp/verif-c13/%path/%Y-%m-%d_%H-%M-%S-%f"}`},
 }
 
-func patchFields(patch string) []string {
-	var m map[string]any
-	json.Unmarshal([]byte(patch), &m) //nolint:errcheck
+func c13Op(js string) *conf.OptionalPath {
+	var op conf.OptionalPath
+	if err := jsonwrapper.Unmarshal([]byte(js), &op); err != nil {
+		panic(err)
+	}
+	return &op
+}
+
+// c13FileEdits change several things in one reload (only possible by editing the file).
+var c13FileEdits = []struct {
+	Desc  string
+	Apply func(c *conf.Conf) error
+}{
+	{"rename cam1 -> cam9", func(c *conf.Conf) error {
+		if err := c.RemovePath("cam1"); err != nil {
+			return err
+		}
+		return c.AddPath("cam9", c13Op(`{"record":false}`))
+	}},
+	{"rename cam1 -> cam9 and add cam3", func(c *conf.Conf) error {
+		if err := c.RemovePath("cam1"); err != nil {
+			return err
+		}
+		if err := c.AddPath("cam3", c13Op(`{}`)); err != nil {
+			return err
+		}
+		return c.AddPath("cam9", c13Op(`{"record":false}`))
+	}},
+	{"rename cam1 -> cam9 with another setting", func(c *conf.Conf) error {
+		if err := c.RemovePath("cam1"); err != nil {
+			return err
+		}
+		return c.AddPath("cam9", c13Op(`{"record":false,"maxReaders":4}`))
+	}},
+	{"replace cam1 by a regular-expression path", func(c *conf.Conf) error {
+		if err := c.RemovePath("cam1"); err != nil {
+			return err
+		}
+		return c.AddPath("~^cam(\\d+)$", c13Op(`{"record":false}`))
+	}},
+	{"rename cam1 -> cam9 and change hlsSegmentCount", func(c *conf.Conf) error {
+		if err := c.RemovePath("cam1"); err != nil {
+			return err
+		}
+		c.HLSSegmentCount += 2
+		return c.AddPath("cam9", c13Op(`{"record":false}`))
+	}},
+}
+
+func c13ApplyFields(c *conf.Conf, m map[string]any) error {
+	if len(m) == 0 {
+		return nil
+	}
+	b, _ := json.Marshal(m)
+	var og conf.OptionalGlobal
+	if err := jsonwrapper.Unmarshal(b, &og); err != nil {
+		return err
+	}
+	c.PatchGlobal(&og)
+	return nil
+}
+
+type c13Edit struct {
+	Desc     string
+	Label    string         // attribution of needless restarts
+	Old, New map[string]any // global parameters that differ from the base configuration before / after
+	PathEdit int            // index+1 into c13PathEdits
+	FileEdit int            // index+1 into c13FileEdits
+}
+
+func c13Fields(e c13Edit) []string {
+	set := map[string]bool{}
+	for k := range e.Old {
+		set[k] = true
+	}
+	for k := range e.New {
+		set[k] = true
+	}
 	var out []string
-	for k := range m {
+	for k := range set {
 		out = append(out, k)
 	}
 	sort.Strings(out)
@@ -236,6 +318,8 @@ func TestVerifC13(t *testing.T) {
 		os.WriteFile(filepath.Join(dir, n+".key"), test.TLSCertKey, 0o600) //nolint:errcheck
 		os.WriteFile(filepath.Join(dir, n+".crt"), test.TLSCertPub, 0o644) //nolint:errcheck
 	}
+	confDir := filepath.Join(dir, "conf") // configuration files live apart from the certificates (both are watched)
+	os.Mkdir(confDir, 0o755)              //nolint:errcheck
 	enable := map[string]bool{"rtsp": true, "rtmp": true, "hls": true, "webrtc": true, "srt": true, "api": true, "metrics": true, "pprof": true, "playback": true}
 	certs := ""
 	for _, k := range []string{"api", "metrics", "pprof", "playback", "rtsp", "rtmp", "hls", "webrtc", "moq"} {
@@ -246,11 +330,13 @@ func TestVerifC13(t *testing.T) {
 	extra := certs + fmt.Sprintf("rtspsAddress: 127.0.0.1:%d\nrtmpsAddress: 127.0.0.1:%d\n", ports["rtsps"], ports["rtmps"]) + "paths:\n  cam1:\n    record: no\n"
 	nextPort := ports["rtsp"] + 100
 	freePort := func() int { nextPort++; return nextPort }
+	cfN := 0
 	startWithFn := func(apply func(c *conf.Conf) error) (*Core, *conf.Conf, string) {
-		cf := filepath.Join(dir, fmt.Sprintf("c%d.yml", time.Now().UnixNano()))
+		cfN++
+		cf := filepath.Join(confDir, fmt.Sprintf("c%d.yml", cfN))
 		os.WriteFile(cf, []byte(baseYAML+extra), 0o644) //nolint:errcheck
 		if apply != nil {
-			// fresh start from "new": load, apply the same edit, validate, re-render as JSON (valid YAML)
+			// load the base, apply the edit, validate, re-render as JSON (valid YAML)
 			c, _, err := conf.Load(cf, nil, nil)
 			if err != nil {
 				return nil, nil, err.Error()
@@ -280,67 +366,101 @@ func TestVerifC13(t *testing.T) {
 	}
 	muts := c13Mutations(rng, baseConf, dir, freePort)
 	p0.Close()
-	npairs := r.N(len(muts)+50, len(muts)*8)
+	var baseJSON map[string]any
+	bj, _ := json.Marshal(baseConf.Global())
+	json.Unmarshal(bj, &baseJSON) //nolint:errcheck
+
+	overRestart := map[string]bool{}          // "field/component": the single-parameter change restarts the unchanged component
+	footprint := map[string]map[string]bool{} // field -> components its single change affects directly
 	fieldsTried := map[string]bool{}
-	overRestart := map[string]bool{} // "field/component": the single-parameter change restarts the unchanged component
-	for pi := 0; pi < npairs; pi++ {
-		m := muts[pi%len(muts)]
-		patch := m.JSON
-		if pi >= len(muts) { // second round and later: two-field diffs
-			m2 := muts[rng.IntN(len(muts))]
-			var a, b map[string]any
-			json.Unmarshal([]byte(m.JSON), &a)  //nolint:errcheck
-			json.Unmarshal([]byte(m2.JSON), &b) //nolint:errcheck
-			for k, v := range b {
-				a[k] = v
+
+	runPair := func(e c13Edit) {
+		applyOld := func(c *conf.Conf) error { return c13ApplyFields(c, e.Old) }
+		var applyNew func(c *conf.Conf) error
+		var reload func(p *Core) error
+		switch {
+		case e.FileEdit != 0:
+			fe := c13FileEdits[e.FileEdit-1]
+			applyNew = fe.Apply
+			reload = func(p *Core) error {
+				c, _, err := conf.Load(p.confPath, nil, nil)
+				if err != nil {
+					return err
+				}
+				if err = fe.Apply(c); err != nil {
+					return err
+				}
+				if err = c.Validate(nil); err != nil {
+					return err
+				}
+				yb, _ := json.Marshal(c)
+				before := p.conf.Load()
+				tmp := p.confPath + ".tmp"
+				os.WriteFile(tmp, yb, 0o644) //nolint:errcheck
+				if err = os.Rename(tmp, p.confPath); err != nil {
+					return err
+				}
+				for w := 0; w < 1000 && p.conf.Load() == before && c13Alive(p); w++ {
+					time.Sleep(10 * time.Millisecond)
+				}
+				if p.conf.Load() == before {
+					return fmt.Errorf("file change not picked up")
+				}
+				return nil
 			}
-			pb, _ := json.Marshal(a)
-			patch = string(pb)
-		}
-		var og conf.OptionalGlobal
-		viaAPI := func(p *Core) error { return p.APIConfigGlobalPatch(og) }
-		apply := func(c *conf.Conf) error { c.PatchGlobal(&og); return nil }
-		if pi >= len(muts) && pi%5 == 4 {
-			// path-level edits: applied in place by ReloadPathConfs (path manager, record cleaner, playback server)
-			pe := c13PathEdits[(pi/5)%len(c13PathEdits)]
-			var op conf.OptionalPath
-			if err := jsonwrapper.Unmarshal([]byte(pe.JSON), &op); err != nil {
-				t.Fatalf("harness: %s: %v", pe.JSON, err)
-			}
-			patch = pe.Kind + " " + pe.Name + " " + pe.JSON
-			m = c13Mut{Field: "paths:" + pe.Kind}
+		case e.PathEdit != 0:
+			pe := c13PathEdits[e.PathEdit-1]
+			op := *c13Op(pe.JSON)
 			switch pe.Kind {
 			case "pathdefaults":
-				viaAPI = func(p *Core) error { return p.APIConfigPathDefaultsPatch(op) }
-				apply = func(c *conf.Conf) error { c.PatchPathDefaults(&op); return nil }
+				reload = func(p *Core) error { return p.APIConfigPathDefaultsPatch(op) }
+				applyNew = func(c *conf.Conf) error { c.PatchPathDefaults(&op); return nil }
 			case "add":
-				viaAPI = func(p *Core) error { return p.APIConfigPathsAdd(pe.Name, op) }
-				apply = func(c *conf.Conf) error { return c.AddPath(pe.Name, &op) }
+				reload = func(p *Core) error { return p.APIConfigPathsAdd(pe.Name, op) }
+				applyNew = func(c *conf.Conf) error { return c.AddPath(pe.Name, &op) }
 			case "patch":
-				viaAPI = func(p *Core) error { return p.APIConfigPathsPatch(pe.Name, op) }
-				apply = func(c *conf.Conf) error { return c.PatchPath(pe.Name, &op) }
+				reload = func(p *Core) error { return p.APIConfigPathsPatch(pe.Name, op) }
+				applyNew = func(c *conf.Conf) error { return c.PatchPath(pe.Name, &op) }
 			case "replace":
-				viaAPI = func(p *Core) error { return p.APIConfigPathsReplace(pe.Name, op) }
-				apply = func(c *conf.Conf) error { return c.ReplacePath(pe.Name, &op) }
+				reload = func(p *Core) error { return p.APIConfigPathsReplace(pe.Name, op) }
+				applyNew = func(c *conf.Conf) error { return c.ReplacePath(pe.Name, &op) }
 			case "delete":
-				viaAPI = func(p *Core) error { return p.APIConfigPathsDelete(pe.Name) }
-				apply = func(c *conf.Conf) error { return c.RemovePath(pe.Name) }
+				reload = func(p *Core) error { return p.APIConfigPathsDelete(pe.Name) }
+				applyNew = func(c *conf.Conf) error { return c.RemovePath(pe.Name) }
 			}
-		} else if err := jsonwrapper.Unmarshal([]byte(patch), &og); err != nil {
-			r.Count("patch_not_decodable", 1)
-			continue
+		default:
+			patch := map[string]any{}
+			for k := range e.Old {
+				patch[k] = baseJSON[k] // back to the base value unless changed again below
+			}
+			for k, v := range e.New {
+				patch[k] = v
+			}
+			pj, _ := json.Marshal(patch)
+			var og conf.OptionalGlobal
+			if err := jsonwrapper.Unmarshal(pj, &og); err != nil {
+				r.Count("patch_not_decodable", 1)
+				return
+			}
+			reload = func(p *Core) error { return p.APIConfigGlobalPatch(og) }
+			applyNew = func(c *conf.Conf) error { return c13ApplyFields(c, e.New) }
 		}
-		// A: start from old, reload to new through the API
-		pa, _, es := startWithFn(nil)
+		// A: start from old, reload to new
+		pa, _, es := startWithFn(applyOld)
 		if pa == nil {
-			r.Inconclusive("pair %d: old core did not start: %s", pi, es)
-			continue
+			if len(e.Old) == 0 {
+				r.Inconclusive("%s: base core did not start: %s", e.Desc, es)
+			} else {
+				r.Count("old_configuration_not_startable", 1)
+			}
+			return
 		}
 		s0 := c13Snapshot(pa)
-		if err := viaAPI(pa); err != nil {
-			r.Count("patch_rejected_by_validate", 1)
+		if err := reload(pa); err != nil {
+			r.Count("edit_rejected", 1)
+			r.SetAdd("edit_rejections", e.Label+": "+err.Error())
 			pa.Close()
-			continue
+			return
 		}
 		var empty conf.OptionalGlobal
 		jsonwrapper.Unmarshal([]byte(`{}`), &empty) //nolint:errcheck
@@ -351,49 +471,59 @@ func TestVerifC13(t *testing.T) {
 			ls := strings.Split(strings.TrimSpace(string(lg)), "\n")
 			for i := len(ls) - 1; i >= 0 && i > len(ls)-40; i-- {
 				if strings.Contains(ls[i], " ERR ") {
-					r.SetAdd("reload_failures", m.Field+": "+ls[i][min(len(ls[i]), 20):])
+					r.SetAdd("reload_failures", e.Label+": "+ls[i][min(len(ls[i]), 20):])
 					break
 				}
 			}
 			pa.Close()
-			continue
+			return
 		}
 		pa.pathManager.APIPathsList() //nolint:errcheck (barrier: the path manager has processed the new path configurations)
 		s1 := c13Snapshot(pa)
 		pa.Close()
 		// B: fresh start from new
-		pb, _, es := startWithFn(apply)
+		pb, _, _ := startWithFn(func(c *conf.Conf) error {
+			if e.FileEdit == 0 && e.PathEdit == 0 {
+				return applyNew(c)
+			}
+			if err := applyOld(c); err != nil {
+				return err
+			}
+			return applyNew(c)
+		})
 		if pb == nil {
 			r.Count("fresh_start_of_new_failed", 1)
-			continue
+			return
 		}
 		s2 := c13Snapshot(pb)
 		pb.Close()
-		fieldsTried[m.Field] = true
-		r.Eval(patch)
-		wit := map[string]any{"patch": patch, "before": s0, "after_reload": s1, "fresh": s2}
+		for _, f := range c13Fields(e) {
+			fieldsTried[f] = true
+		}
+		r.Eval(e.Desc)
+		wit := map[string]any{"edit": e.Desc, "before": s0, "after_reload": s1, "fresh": s2}
 		// (1) reload == fresh start
 		bad := false
 		for name, fresh := range s2 {
 			got, ok := s1[name]
 			if !ok {
-				r.Violation("component-missing-after-reload:"+name, fmt.Sprintf("patch %s: component %s runs after a fresh start with the new configuration but not after the reload", patch, name), wit)
+				r.Violation("component-missing-after-reload:"+name, fmt.Sprintf("%s: component %s runs after a fresh start with the new configuration but not after the reload", e.Desc, name), wit)
 				bad = true
 				continue
 			}
 			if d := vmon.DiffDumps(fresh.Values, got.Values, 4); len(d) != 0 {
-				r.Violation("parameter-not-applied:"+name, fmt.Sprintf("patch %s: after the reload component %s runs with parameters that differ from a fresh start with the new configuration: %v", patch, name, d), wit)
+				r.Violation("parameter-not-applied:"+name, fmt.Sprintf("%s: after the reload component %s runs with parameters that differ from a fresh start with the new configuration: %v", e.Desc, name, d), wit)
 				bad = true
 			}
 		}
 		for name := range s1 {
 			if _, ok := s2[name]; !ok {
-				r.Violation("component-not-closed-after-reload:"+name, fmt.Sprintf("patch %s: component %s still runs after the reload but a fresh start with the new configuration does not create it", patch, name), wit)
+				r.Violation("component-not-closed-after-reload:"+name, fmt.Sprintf("%s: component %s still runs after the reload but a fresh start with the new configuration does not create it", e.Desc, name), wit)
 				bad = true
 			}
 		}
 		if bad {
-			continue
+			return
 		}
 		// (2) no reference to a component instance that was replaced
 		old := map[uintptr]string{}
@@ -405,7 +535,7 @@ func TestVerifC13(t *testing.T) {
 		for name, c := range s1 {
 			for f, ptr := range c.Refs {
 				if on, stale := old[ptr]; stale {
-					r.Violation("stale-component-reference:"+name+"."+f, fmt.Sprintf("patch %s: after the reload %s.%s still points at the %s instance that was closed", patch, name, f, on), wit)
+					r.Violation("stale-component-reference:"+name+"."+f, fmt.Sprintf("%s: after the reload %s.%s still points at the %s instance that was closed", e.Desc, name, f, on), wit)
 				}
 			}
 		}
@@ -421,7 +551,19 @@ func TestVerifC13(t *testing.T) {
 				changed[name] = true
 			}
 		}
-		// dependants of changed components may be recreated too
+		if fs := c13Fields(e); len(fs) == 1 && e.PathEdit == 0 && e.FileEdit == 0 {
+			fp := map[string]bool{}
+			for k := range changed {
+				fp[k] = true
+			}
+			footprint[fs[0]] = fp
+		}
+		directN := len(changed)
+		inPlace := func(name, f string) bool {
+			// references that the code updates in place (servers register themselves in the metrics exporter and the HLS
+			// server in the path manager) do not force the holder to be recreated
+			return (name == "metrics" && f[0] >= 'a' && f[0] <= 'z') || (name == "pathManager" && f == "hlsServer")
+		}
 		typeOf := map[uintptr]string{}
 		for name, c := range s0 {
 			typeOf[c.Ptr] = name
@@ -438,20 +580,18 @@ func TestVerifC13(t *testing.T) {
 					continue
 				}
 				for f := range s2[name].Refs {
-					if _, had := c.Refs[f]; !had && !((name == "metrics" && f[0] >= 'a' && f[0] <= 'z') || (name == "pathManager" && f == "hlsServer")) {
-						changed[name] = true // a constructor argument that was nil is now a component (or vice versa, below)
+					if _, had := c.Refs[f]; !had && !inPlace(name, f) {
+						changed[name] = true // a constructor argument that was nil is now a component
 						again = true
 					}
 				}
 				for f, ptr := range c.Refs {
-					if _, has := s2[name].Refs[f]; !has && !((name == "metrics" && f[0] >= 'a' && f[0] <= 'z') || (name == "pathManager" && f == "hlsServer")) {
+					if inPlace(name, f) {
+						continue
+					}
+					if _, has := s2[name].Refs[f]; !has {
 						changed[name] = true
 						again = true
-					}
-					// references that the code updates in place (servers register themselves in the metrics exporter and the HLS
-					// server in the path manager) do not force the holder to be recreated
-					if (name == "metrics" && f[0] >= 'a' && f[0] <= 'z') || (name == "pathManager" && f == "hlsServer") {
-						continue
 					}
 					if dep, ok := typeOf[ptr]; ok && changed[dep] {
 						changed[name] = true
@@ -461,41 +601,116 @@ func TestVerifC13(t *testing.T) {
 			}
 		}
 		for name, c := range s0 {
-			if !changed[name] && name != "logger" {
-				if cur, ok := s1[name]; ok && cur.Ptr != c.Ptr {
-					fields := patchFields(patch)
-					if strings.HasPrefix(m.Field, "paths:") {
-						fields = []string{m.Field}
-					}
-					switch {
-					case len(fields) == 1 && len(changed) == 0:
-						overRestart[fields[0]+"/"+name] = true
-						r.Violation("unchanged-component-restarted:"+name+":patch-affects-no-running-component", fmt.Sprintf("patch %s changes only parameters of components that are not running (before and after), but %s was recreated (its clients are disconnected)", patch, name), wit)
-					case len(fields) == 1:
-						overRestart[fields[0]+"/"+name] = true
-						r.Violation("unchanged-component-restarted:"+name+":"+fields[0], fmt.Sprintf("patch %s: no parameter of %s (nor of a component it references) changed, but it was recreated (its clients are disconnected)", patch, name), wit)
-					default:
-						known := false
-						for _, f := range fields {
-							known = known || overRestart[f+"/"+name]
-						}
-						if !known { // otherwise already reported for the single-parameter change
-							r.Violation("unchanged-component-restarted:"+name+":"+strings.Join(fields, "+"), fmt.Sprintf("patch %s: no parameter of %s (nor of a component it references) changed, and neither single-parameter change restarts it, but it was recreated", patch, name), wit)
-						}
-					}
+			if changed[name] || name == "logger" {
+				continue
+			}
+			cur, ok := s1[name]
+			if !ok || cur.Ptr == c.Ptr {
+				continue
+			}
+			fields := c13Fields(e)
+			single := len(fields) == 1 && e.PathEdit == 0 && e.FileEdit == 0
+			switch {
+			case single && directN == 0:
+				overRestart[fields[0]+"/"+name] = true
+				r.Violation("unchanged-component-restarted:"+name+":patch-affects-no-running-component", fmt.Sprintf("%s changes only parameters of components that are not running (before and after), but %s was recreated (its clients are disconnected)", e.Desc, name), wit)
+			case single:
+				overRestart[fields[0]+"/"+name] = true
+				r.Violation("unchanged-component-restarted:"+name+":"+fields[0], fmt.Sprintf("%s: no parameter of %s (nor of a component it references) changed, but it was recreated (its clients are disconnected)", e.Desc, name), wit)
+			default:
+				known := false
+				for _, f := range fields {
+					known = known || overRestart[f+"/"+name]
+				}
+				if !known { // otherwise already reported for the single-parameter change
+					r.Violation("unchanged-component-restarted:"+name+":"+e.Label, fmt.Sprintf("%s: no parameter of %s (nor of a component it references) changed, and no single-parameter change among these restarts it, but it was recreated", e.Desc, name), wit)
 				}
 			}
 		}
-		if r.WantSample() && pi%7 == 0 {
+		if r.WantSample() && rng.IntN(9) == 0 {
 			var ch []string
 			for k := range changed {
 				ch = append(ch, k)
 			}
 			sort.Strings(ch)
-			r.Sample(map[string]any{"patch": patch, "components_expected_to_change": ch})
+			r.Sample(map[string]any{"edit": e.Desc, "components_expected_to_change": ch})
 		}
 	}
+
+	js := func(v any) string { b, _ := json.Marshal(v); return string(b) }
+	// round 1: every parameter alone (first alternative), old = base
+	for _, m := range muts {
+		runPair(c13Edit{Desc: "patch " + js(map[string]any{m.Field: m.Alts[0]}), Label: m.Field, New: map[string]any{m.Field: m.Alts[0]}})
+	}
+	// path-level edits through the API and multi-path edits through the file
+	for i := range c13PathEdits {
+		pe := c13PathEdits[i]
+		runPair(c13Edit{Desc: "api " + pe.Kind + " " + pe.Name + " " + pe.JSON, Label: "paths:" + pe.Kind, PathEdit: i + 1})
+	}
+	nFile := r.N(2, len(c13FileEdits))
+	for k := 0; k < nFile; k++ {
+		i := (k + int(r.Seed())) % len(c13FileEdits)
+		runPair(c13Edit{Desc: "file edit: " + c13FileEdits[i].Desc, Label: "file:" + c13FileEdits[i].Desc, FileEdit: i + 1})
+	}
+	// round 2: pairs of parameters that affect a common component, in every direction (both changed; one changed
+	// back while the other changes; both changed back), with every alternative value
+	type pairCase struct {
+		f, g   c13Mut
+		af, ag any
+		mode   int
+	}
+	var cases []pairCase
+	for i, f := range muts {
+		for _, g := range muts[i+1:] {
+			common := false
+			if len(footprint[f.Field]) <= 8 && len(footprint[g.Field]) <= 8 {
+				for k := range footprint[f.Field] {
+					common = common || footprint[g.Field][k]
+				}
+			}
+			if !common {
+				continue
+			}
+			for _, af := range f.Alts {
+				for _, ag := range g.Alts {
+					for mode := 0; mode < 4; mode++ {
+						cases = append(cases, pairCase{f, g, af, ag, mode})
+					}
+				}
+			}
+		}
+	}
+	rng.Shuffle(len(cases), func(a, b int) { cases[a], cases[b] = cases[b], cases[a] })
+	r.Count("related_parameter_pair_cases_available", int64(len(cases)))
+	nPairs := r.N(60, len(cases))
+	for _, pc := range cases[:min(nPairs, len(cases))] {
+		e := c13Edit{Label: pc.f.Field + "+" + pc.g.Field}
+		F, G := map[string]any{pc.f.Field: pc.af}, map[string]any{pc.g.Field: pc.ag}
+		both := map[string]any{pc.f.Field: pc.af, pc.g.Field: pc.ag}
+		switch pc.mode {
+		case 0:
+			e.New = both
+		case 1:
+			e.Old, e.New = F, G
+		case 2:
+			e.Old, e.New = G, F
+		default:
+			e.Old = both
+		}
+		e.Desc = fmt.Sprintf("old = base + %s, new = base + %s", js(e.Old), js(e.New))
+		runPair(e)
+	}
+	// round 3: random unrelated pairs
+	for k := r.N(30, 600); k > 0; k-- {
+		f, g := muts[rng.IntN(len(muts))], muts[rng.IntN(len(muts))]
+		if f.Field == g.Field {
+			continue
+		}
+		e := c13Edit{Label: f.Field + "+" + g.Field, New: map[string]any{f.Field: f.Alts[rng.IntN(len(f.Alts))], g.Field: g.Alts[rng.IntN(len(g.Alts))]}}
+		e.Desc = "patch " + js(e.New)
+		runPair(e)
+	}
 	r.Count("distinct_global_fields_exercised", int64(len(fieldsTried)))
-	r.Finish("pairs (old, new) of global configurations: old = all servers enabled on a private port block with TLS material in place, new = old with one parameter changed (every non-deprecated global parameter enumerated by reflection over conf.Conf with a type-driven alternative value; later rounds change two parameters). For each pair: real Core started from old, reloaded to new through the API (barrier: a following no-op edit), white-box snapshot of every component (exported configuration fields, referenced components); then a real Core started fresh from new. Oracle (metamorphic): snapshot(reload) == snapshot(fresh) per component; no component still references a replaced instance; components whose parameters (and referenced components) did not change keep their identity. non-trivial = distinct patch",
-		"pairs rejected by Validate, or whose reload / fresh start fails (e.g. a port in use), are counted and skipped; the authentication method is not switched (other methods need a reachable authority)")
+	r.Finish("pairs (old, new) of configurations on real Cores (all servers enabled on a private port block, TLS material in place). Round 1: new = base with one global parameter changed, for every non-deprecated global parameter (enumerated by reflection over conf.Conf, type-driven alternative values). Path-level edits through the API (path defaults, add / patch / replace / delete) and multi-path edits through the configuration file (renames: equal numbers of added and removed paths). Round 2: pairs of parameters that affect a common component, with every alternative value and in every direction (old = base, new = base+f+g; old = base+f, new = base+g; old = base+g, new = base+f; old = base+f+g, new = base) - quick samples these cases, thorough enumerates them. Round 3: random pairs. For each pair: real Core started from old, reloaded to new (API or file; barrier: a following no-op edit and a path manager query), white-box snapshot of every component (exported configuration fields, path configurations, referenced components); then a real Core started fresh from new. Oracle (metamorphic): snapshot(reload) == snapshot(fresh) per component; no component still references a replaced instance; components whose parameters (and referenced components) did not change keep their identity. non-trivial = distinct (old, new)",
+		"pairs rejected by Validate, or whose old configuration / reload / fresh start fails (e.g. a port in use), are counted and skipped; the authentication method is not switched (other methods need a reachable authority)")
 }
